@@ -58,7 +58,7 @@ Proof.
   { destruct (negb (seen st ID_CONTENT_LENGTH)); [|discriminate]. destruct (strtoint64 vv 0); [|discriminate].
     intros H. injection H as <-. intros Hs. apply seen_mark. destruct (st_rlen st =? 0)%Z; exact Hs. }
   destruct (id =? ID_TRANSFER_ENCODING).
-  { destruct (negb (st_http11 st)); [discriminate|]. destruct (negb (eq_icase vv s_chunked)); [discriminate|].
+  { destruct (negb (st_http11 st)); [discriminate|]. destruct (negb (eq_icase vv s_chunked) || (st_rlen st =? -1)%Z); [discriminate|].
     intros H; inversion H; subst. auto. }
   intros H; inversion H; subst. apply seen_mark.
 Qed.
@@ -142,7 +142,7 @@ Qed.
 (* ---------- Transfer-Encoding *)
 Theorem te_step st v st' :
   field_step st (ID_TRANSFER_ENCODING, v) = Go st' ->
-  v = [] /\ st' = st \/ (st_http11 st = true /\ eq_icase v s_chunked = true /\ st_rlen st' = (-1)%Z).
+  v = [] /\ st' = st \/ (st_http11 st = true /\ eq_icase v s_chunked = true /\ st_rlen st <> (-1)%Z /\ st_rlen st' = (-1)%Z).
 Proof.
   destruct ids_distinct_holds as (_ & _ & D2 & _ & _ & _ & _ & _ & T1 & T2 & T3 & T4 & T5 & T6).
   unfold field_step. destruct v as [|c v'].
@@ -152,5 +152,6 @@ Proof.
     apply not_eq_sym in D2. neqb D2. rewrite D2. rewrite N.eqb_refl.
     destruct (st_http11 st); simpl negb; cbv iota; [|discriminate].
     destruct (eq_icase vv s_chunked) eqn:Ec; simpl negb; cbv iota; [|discriminate].
-    intros H; inversion H; subst. right. repeat split.
+    cbn [orb]. destruct (st_rlen st =? -1)%Z eqn:Er; [discriminate|]. apply Z.eqb_neq in Er.
+    intros H; inversion H; subst. right. repeat split. exact Er.
 Qed.
